@@ -52,7 +52,8 @@ REQUIRE = {
 RULE = (
     "a case = one session descriptor (class, encoding utf-8/euc-jp/ascii, str|bytes, caption, text, width 1..20, "
     "wrap space/any/clip, align, multiline, allow_tab, mask, initial offset, observation period, op list); "
-    "(a) sweep: curated (caption,text) x width x wrap x align x every offset, each of the used keys / a narrow and a "
+    "(a) sweep (time-bounded sample in hashed order of ~160k states): curated (caption,text) x str|bytes x 3 encodings x "
+    "width 1..12 x wrap x align x every offset, each of the used keys / a narrow and a "
     "wide printable / a click on every cell applied from that state (state restored with set_edit_text/set_edit_pos "
     "between probes); (b) random 5..40-op histories of printables, left/right/up/down/home/end, backspace, delete, "
     "enter, tab, unused keys, clicks (after a focused or unfocused render), other mouse buttons, unfocused renders "
@@ -1007,29 +1008,24 @@ def run(ctx):
     KNOWN.clear()
     KNOWN.update(core.load_findings(PROPERTY))
     try:
-        # (a) depth-1 sweep
-        idx = 0
-        stride = ctx.pick(23, 3)
-        sweep_total = 0
+        # (a) depth-1 sweep: states visited in a seed-dependent hashed order (so a time-bounded run samples
+        # every encoding / text type / wrap / align evenly), partitioned over shards, until half the budget is used
+        states = [(cfg, pos) for cfg in sweep_configs() for pos in range(len(cfg[3]) + 1)]
+        states.sort(key=lambda st: core.h64([ctx.seed, st]))
         sweep_done = 0
-        for cfg in sweep_configs():
-            enc, is_bytes, cap, text, wrap, align, width = cfg
-            for pos in range(len(text) + 1):
-                idx += 1
-                sweep_total += 1
-                if not ctx.mine(idx):
-                    continue
-                if (idx // ctx.nshards + ctx.seed) % stride:
-                    continue
-                if not ctx.more(0.5):
-                    break
-                desc = sweep_desc(cfg, pos, (idx // ctx.nshards) & 3)
-                execute(ctx, desc, seen)
-                sweep_done += 1
-                ctx.count("sweep_sessions")
-                if sweep_done == 1:
-                    ctx.sample({k: v for k, v in desc.items() if k != "ops"} | {"ops": desc["ops"][:6] + ["..."]})
-        ctx.extra["sweep_states_total"] = sweep_total
+        for idx, (cfg, pos) in enumerate(states):
+            if not ctx.mine(idx):
+                continue
+            if not ctx.more(0.5):
+                break
+            desc = sweep_desc(cfg, pos, (idx // ctx.nshards) & 3)
+            execute(ctx, desc, seen)
+            sweep_done += 1
+            ctx.count("sweep_sessions")
+            if sweep_done == 1:
+                ctx.sample({k: v for k, v in desc.items() if k != "ops"} | {"ops": desc["ops"][:6] + ["..."]})
+        ctx.extra["sweep_states_total"] = len(states)
+        ctx.extra["sweep_complete_in_budget"] = bool(ctx.more(0.5))
         # (b) random histories
         k = 0
         while ctx.more(1.0):
